@@ -323,3 +323,42 @@ Fixpoint edit_at (path : list pstep) (g : hist Z -> res (hist Z)) (t : tree) : r
       | _, _ => Err ENotFound
       end
   end.
+
+(** ** Vector lookup of names in a group at an instant: node_at_instant[array of names]
+
+    __getitem__ in parameter_node_at_instant.py with a numpy array of strings, through
+    build_from_node / __getitem__ of vectorial_parameter_node_at_instant.py, for a FLAT
+    group whose members are numbers (sub-groups and scales are not modelled here and
+    count as absent).  The members present are those defined at the date; every
+    requested name must be one of them.  The code reads the field of key[0] first (a
+    missing field there is numpy's ValueError), then selects and raises
+    ParameterNotFoundError for any other missing name; a group with no member at that
+    date fails earlier with IndexError. *)
+Fixpoint member_value (n : string) (l : list (string * view)) : option Z :=
+  match l with
+  | [] => None
+  | (m, v) :: r =>
+      if String.eqb m n
+      then match v with VValue z => Some z | _ => None end
+      else member_value n r
+  end.
+
+Fixpoint lookup_all (l : list (string * view)) (key : list string) : option (list Z) :=
+  match key with
+  | [] => Some []
+  | k :: r => match member_value k l, lookup_all l r with
+              | Some z, Some zs => Some (z :: zs)
+              | _, _ => None
+              end
+  end.
+
+Definition vector_lookup (l : list (string * view)) (key : list string) : res (list Z) :=
+  match l, key with
+  | [], _ => Err EIndex
+  | _, [] => Err EIndex
+  | _, k0 :: _ =>
+      match member_value k0 l with
+      | None => Err EValue
+      | Some _ => match lookup_all l key with Some zs => Ok zs | None => Err ENotFound end
+      end
+  end.
